@@ -943,6 +943,8 @@ def run(ctx):
     # removing an item straight on the lxml tree bypasses Element.delete and the vault bookkeeping (rule shared with C09)
     from .c09 import r09i
     r09i(ctx)
+    from .round12 import r01m
+    r01m(ctx)
 
 
 from ..selftest import Seed, unparse_seed  # noqa: E402
